@@ -27,8 +27,9 @@ Definition addr := nat.
 Definition nosender : addr := 0.
 
 (** an address as it travels on the wire (a string).  [WGood n] / [WBad n] are both the canonical
-    string [Address.String()] of address [n]; [WBad] is one that [address.Parse] rejects (today: a raw
-    IPv6 host, see C26).  [WEmpty] is the empty string (no sender). *)
+    string [Address.String()] of address [n]; [WBad] is one that [address.Parse] rejects (a raw IPv6 host
+    before repo commit d405ae0, see C26; the harness asks the real Parse which case applies; [WBad 0] also
+    stands for a string that is no address at all).  [WEmpty] is the empty string (no sender). *)
 Inductive waddr := WEmpty | WBad (n : addr) | WGood (n : addr).
 
 Definition parse (w : waddr) : option addr :=
